@@ -6,9 +6,13 @@
 //! * `cargo build` in /verif/harness-real - fn_graph against the real crates,
 //!   replaying solver counterexamples
 
+#![cfg_attr(kani, feature(allocator_api))]
+
 pub mod exec;
 pub mod graphs;
 pub mod nd;
 pub mod run;
 pub mod stream;
 pub mod build;
+pub mod stubs;
+pub mod queuer;
